@@ -133,6 +133,45 @@ func emitClaimHex(out *Out, r *Rng) {
 	if derr != nil && e2 == nil {
 		why = append(why, fmt.Sprintf("BJJSignature2021 accepts the claim spelling %q that Iden3SparseMerkleTreeProof refuses (%v)", cased, derr))
 	}
+	// the same proof inside a credential: the credential decodes exactly when every one of its typed proofs does, and then the proof at
+	// that position carries this claim (a proof that fails to decode half-way is not a proof of the credential)
+	{
+		goodSlots := [8]*big.Int{}
+		for i := range goodSlots {
+			goodSlots[i] = r.BigBelow(q)
+		}
+		good := J{"type": "Iden3SparseMerkleTreeProof", "issuerData": J{"id": "did:x:y", "state": J{}}, "coreClaim": claimHexOf(goodSlots)}
+		mine := J{"type": r.Pick([]string{"Iden3SparseMerkleTreeProof", "Iden3SparseMerkleProof", "BJJSignature2021"}), "issuerData": J{"id": "did:x:y", "state": J{}}, "coreClaim": cased,
+			"signature": strings.Repeat("00", 64)}
+		var proofs any
+		pos := 0
+		switch r.Intn(4) {
+		case 0:
+			proofs = mine
+		case 1:
+			proofs = []any{mine, good}
+		case 2:
+			proofs, pos = []any{good, mine}, 1
+		default:
+			proofs, pos = []any{good, mine, good}, 1
+		}
+		cj, _ := json.Marshal(J{"@context": []string{"https://www.w3.org/2018/credentials/v1"}, "type": []string{"VerifiableCredential"}, "issuer": "did:x:y",
+			"credentialSubject": J{"id": "did:x:z"}, "proof": proofs})
+		var vc verifiable.W3CCredential
+		cerr := json.Unmarshal(cj, &vc)
+		if (cerr == nil) != (derr == nil) {
+			why = append(why, fmt.Sprintf("a credential whose proof %d spells its claim %q decodes with err=%v, the proof alone with err=%v", pos, cased, cerr, derr))
+		}
+		if cerr == nil && derr == nil {
+			if len(vc.Proof) <= pos {
+				why = append(why, "the decoded credential lost a proof")
+			} else if c, e := vc.Proof[pos].GetCoreClaim(); e != nil || c == nil {
+				why = append(why, fmt.Sprintf("proof %d of the decoded credential does not hand out its claim: %v", pos, e))
+			} else if h, _ := c.Hex(); impl["ok"] != nil && h != impl["ok"].(J)["hex"] {
+				why = append(why, fmt.Sprintf("proof %d of the decoded credential carries another claim than the one written", pos))
+			}
+		}
+	}
 	if kind == "valid" && derr != nil {
 		why = append(why, fmt.Sprintf("a claim of eight field elements written in hexadecimal (%s) is refused: %v", cased, derr))
 	}
